@@ -5,12 +5,12 @@ CONSTANTS
  FreeNames = {"a"}
  Top = {"b"}
  MaxParams = 1
- MaxDecl = 2
+ MaxDecl = 1
  Start <- StartAB
  Cont <- ContABC
  DReserved = {"aa"}
  AllowWith = FALSE
- AllowVars = TRUE
+ AllowVars = FALSE
  MaxUses = 1
 INVARIANTS CaptureFree NoCollision PublicUnchanged NoReserved WithOwn WithCross Emit
 CHECK_DEADLOCK FALSE
